@@ -394,7 +394,7 @@ Proof.
   rewrite Z2Nat.id by (unfold vm_check_cycles; lia). unfold vm_cycle_reset in Hc. lia.
 Qed.
 
-(* wall clock: only relative to a bound on the cost of one lim_step, which the model does not have *)
+(* wall clock: only relative to a bound on the cost of one step, which the model does not have *)
 Lemma cost_sum_bounded : forall (cost : Z -> Z) (B : Z), 0 <= B -> (forall t, cost t <= B) ->
   forall (k : nat) (s : Z), cost_sum cost s k <= Z.of_nat k * B.
 Proof.
